@@ -275,10 +275,119 @@ def c08(tier, seed):
     return finish(agg, "exploration", cov, ["exact Riemann solver (Toro) and conjugate-normal formulas written in the harness in __float128", "mu kept consistent with Gamma (the property quantifies over Gamma)"], floors)
 
 
+# --------------------------------------------------------------------------------------------- C10, C11, C12, C16 (history monitor)
+HIST_SRCS = COMMON + ["mon_hist.cpp"]
+
+
+def hist_exe(flavour):
+    return build.build_bin(flavour, "mon_hist", HIST_SRCS)
+
+
+def hist_shards(seed, focus, steps, n_exc, n_plain, base=0):
+    sh = []
+    for fl, n in (("exc", n_exc), ("plain", n_plain)):
+        exe = hist_exe(fl)
+        for i in range(n):
+            sh.append(Shard(exe, ["--mode", "random", "--focus", focus, "--steps", str(steps), "--seed", str(seed), "--shard", str(base + i + (500 if fl == "plain" else 0))],
+                            "%s/random-%s/%d" % (fl, focus, i), env=NOLEAK, timeout=3600))
+    return sh
+
+
+HIST_RULE = ("random histories over 6 handles x 2 precisions: init (incl. re-initialisation of a live handle and two handles of one type), select, set_param (values near the "
+             "defaults, and 20% arbitrary finite values incl. 0, 1e-30, 1e30), unknown names (random, case variant, proper prefix/suffix, empty, trailing blank), get, init_param, "
+             "purge, sanity_check, set_vec/get_vec with lengths 0..64, display_param, evaluator calls at a pool of 32 points (half of them repeats of earlier calls), twin-handle "
+             "reproduction, failing calls, checkpoints visiting every handle; every step compared with the sequential model. ")
+HIST_ASSUME = ["parameter names are learnt from masa_display_param/masa_display_vec output; defaults of a solution type = first snapshot observed after masa_init",
+               "the exit() build keeps sod_1d parameters near their defaults (a Sod evaluator may legitimately call exit(1) when its root is not bracketed)"]
+
+
+def hist_cov(agg, extra):
+    cov = {"evaluations": agg.count("steps"),
+           "distinct_nontrivial": agg.shards * 1 + agg.count("checkpoints"),
+           "rule": HIST_RULE + extra + " Each shard is one distinct history (distinct PRNG stream); distinct_nontrivial counts histories plus checkpoints (quiescent points at which every handle was compared).",
+           "solution_types_initialised": agg.ndistinct("solutions_initialised"),
+           "snapshots_compared": agg.count("snapshots_compared"), "evaluator_calls": agg.count("evaluations"), "repeated_evaluator_calls": agg.count("repeated_evaluations"),
+           "twin_reproductions": agg.count("twin_reproductions"), "fatal_paths_observed": agg.count("fatal_paths_observed"), "listings_parsed": agg.count("listings_parsed"),
+           "flavours": ["exc (MASA_EXCEPTIONS, failures caught in-process)", "plain (exit(); failing calls observed in forked children)"]}
+    return cov
+
+
+@prop("C10")
+def c10(tier, seed):
+    agg = Agg("C10", tier, seed)
+    steps, ne, npl = (4000, 6, 4) if tier == "quick" else (60000, 12, 8)
+    agg.add_shards(run_shards(hist_shards(seed, "purity", steps, ne, npl)))
+    cov = hist_cov(agg, "Focus: evaluator calls (45%).")
+    floors = [("at least 5000 evaluator calls", agg.count("evaluations") >= 5000), ("at least 1000 repeated calls", agg.count("repeated_evaluations") >= 1000),
+              ("at least 300 twin-handle reproductions", agg.count("twin_reproductions") >= 300), ("at least 30 solution types evaluated", agg.ndistinct("solutions_initialised") >= 30)]
+    return finish(agg, "exploration", cov, HIST_ASSUME, floors)
+
+
+@prop("C11")
+def c11(tier, seed):
+    agg = Agg("C11", tier, seed)
+    steps, ne, npl = (4000, 6, 4) if tier == "quick" else (60000, 12, 8)
+    shards = hist_shards(seed, "store", steps, ne, npl)
+    for fl in ("exc", "plain"):
+        shards.append(Shard(hist_exe(fl), ["--mode", "sweep", "--seed", str(seed), "--shard", "900"], fl + "/sweep", env=NOLEAK))
+    agg.add_shards(run_shards(shards))
+    cov = hist_cov(agg, "Plus the systematic sweep: for every solution (35) and every one of its parameter names, set that name alone to a unique value and compare the whole snapshot; "
+                        "then init_param / purge / sanity_check / display_param.")
+    cov["sweep_names_set_individually"] = agg.count("sweep_names")
+    floors = [("sweep covered every name of every solution twice (both flavours, both precisions)", agg.count("sweep_names") >= 3200),
+              ("at least 20000 snapshots compared", agg.count("snapshots_compared") >= 20000), ("at least 30 solution types", agg.ndistinct("solutions_initialised") >= 30)]
+    return finish(agg, "exploration", cov, HIST_ASSUME, floors)
+
+
+@prop("C12")
+def c12(tier, seed):
+    agg = Agg("C12", tier, seed)
+    steps, ne, npl, maxlen, parts = (4000, 4, 2, 4, 10) if tier == "quick" else (100000, 10, 6, 6, 32)
+    shards = hist_shards(seed, "registry", steps, ne, npl)
+    exe = hist_exe("plain")
+    for i in range(parts):
+        shards.append(Shard(exe, ["--mode", "exhaustive", "--maxlen", str(maxlen), "--parts", str(parts), "--shard", str(i), "--seed", str(seed)], "plain/exhaustive/%d" % i, env=NOLEAK, timeout=7200))
+    agg.add_shards(run_shards(shards))
+    cov = hist_cov(agg, "Bounded-exhaustive part: ALL sequences of length <= %d over the alphabet {init(A,s1), init(B,s1), init(B,s2), init(A,s2), select(A), select(B), set(p,v1), set(p,v2), "
+                        "get(p), name, dim, list} (s1 = euler_1d, s2 = heateq_2d_steady_const) that start with an init, each executed from the empty registry in a forked child and "
+                        "compared step by step; sequences selecting a handle that does not exist are C16's and are skipped." % maxlen)
+    cov["exhaustive"] = True
+    cov["exhaustive_scope"] = "the bounded part only (length <= %d); the random part is sampling" % maxlen
+    cov["exhaustive_sequences_enumerated"] = agg.count("exhaustive_sequences_enumerated")
+    cov["exhaustive_sequences_executed"] = agg.count("exhaustive_sequences_executed")
+    cov["states"] = agg.ndistinct("exhaustive_model_states")
+    cov["distinct_nontrivial"] = agg.count("exhaustive_sequences_executed") + agg.shards
+    want = sum(4 * 12 ** (l - 1) for l in range(1, maxlen + 1))
+    floors = [("every sequence of the bounded space enumerated (%d)" % want, agg.count("exhaustive_sequences_enumerated") == want),
+              ("at least 50 distinct model states reached", agg.ndistinct("exhaustive_model_states") >= 50),
+              ("at least 2000 listings parsed in random histories", agg.count("listings_parsed") >= 2000)]
+    return finish(agg, "exploration", cov, HIST_ASSUME, floors)
+
+
+@prop("C16")
+def c16(tier, seed):
+    agg = Agg("C16", tier, seed)
+    steps, ne, npl = (4000, 6, 3) if tier == "quick" else (60000, 12, 6)
+    shards = hist_shards(seed, "fatal", steps, ne, npl)
+    for fl in ("exc", "plain"):
+        for p in ("d", "l"):
+            shards.append(Shard(hist_exe(fl), ["--mode", "preinit", "--prec", p, "--seed", str(seed)], "%s/preinit/%s" % (fl, p), env=NOLEAK))
+    agg.add_shards(run_shards(shards))
+    cov = hist_cov(agg, "Focus: failing calls (25%%: select of an unknown handle, init with an unknown solution name on an existing and on a new handle) injected at random positions; "
+                        "after each, registry, selection, listing and the full parameter snapshot must equal the model's unchanged state and the history continues. Plus the "
+                        "pre-init part: every solution-dependent API function (all %d evaluator overloads + 15 others) on an empty registry in both builds and both precisions." % 117)
+    cov["preinit_functions_reached"] = agg.ndistinct("preinit_functions")
+    floors = [("every API function reached the pre-init path in both precisions (>= 260)", agg.ndistinct("preinit_functions") >= 260),
+              ("at least 1000 mid-session failures observed", agg.count("fatal_paths_observed") >= 1000 + 4 * 132)]
+    return finish(agg, "exploration", cov, HIST_ASSUME, floors)
+
+
 def prebuild():
     """build every harness binary the quick checks use (called by setup)"""
     build.build_bin("exc", "mon_names", COMMON + ["mon_names.cpp"])
     build.build_bin("plain", "mon_names", COMMON + ["mon_names.cpp"])
     pde_exe("plain")
+    hist_exe("exc")
+    hist_exe("plain")
     build.build_bin("plain", "mon_closed", COMMON + ["mon_closed.cpp"], opt="-O2")
     build.build_bin("plain", "mon_reduce", RED_SRCS, opt="-O2")
